@@ -1,4 +1,5 @@
 """C14 - prefixed numbers are exact, totally ordered and hash-consistent."""
+import os
 import itertools
 import random
 from decimal import Decimal
@@ -9,11 +10,14 @@ from contracts.common import *
 
 INFO = {
     "level": "other",
-    "explanation": "bounded evaluation of the run-time contract of every Prefixed operation against exact rational "
-                   "arithmetic (fractions.Fraction) over all 441 ordered prefix pairs x a mantissa set; the prefix "
-                   "tables (Prefix.from_exp / closest, export/import) by exhaustive evaluation; pyvc proves the "
-                   "integer-level skeleton it can reach (Prefix.from_exp dispatch). Decimal context arithmetic and IEEE "
-                   "rounding are outside the solver theories, so nothing numeric is claimed as proved.",
+    "explanation": "deductive: the six comparison operators, __hash__, __int__ and __float__ of Prefixed (with "
+                   "_rounded_to_smaller, to_prefixed and exact inlined from source) are executed symbolically over "
+                   "exact rationals for every ordered pair of the 21 prefixes with ARBITRARY real mantissas; "
+                   "never-raises, agreement beyond the tolerance, same-value equality and hash, trichotomy and the "
+                   "relations between the operators, operand-swap symmetry, int truncation and float nearest are "
+                   "discharged by cvc5/z3 (linear real/integer arithmetic with floor). Arithmetic (+ - * / scale) runs "
+                   "in decimal's 28-digit context, outside the theories: decided only by bounded evaluation against "
+                   "fractions.Fraction over all 441 prefix pairs x a mantissa set; prefix tables exhaustively.",
     "trusted_base": ["fractions.Fraction and decimal as reference arithmetic", "CPython float() of a Fraction is "
                      "correctly rounded"],
 }
@@ -168,14 +172,165 @@ def run(ctx):
                          "with different prefixes); every comparison operator, hash, int, float, + - * neg abs scale "
                          "against fractions.Fraction; distinct = distinct (mantissa, prefix) pair; all non-trivial",
                     bound="441 prefix pairs x %d mantissa pairs" % (12 if ctx.tier == "thorough" else 5), key_of=repr)
-    ctx.obligations, ctx.discharged = 0, 0
+    deductive(ctx)
     return INFO
+
+
+# ------------------------------------------------------------------------------------------------ deductive part
+def _prove_pairs(idxs):
+    """worker: build and discharge the obligations of some prefix pairs -> light-weight results"""
+    from contracts import c_prefix as cp
+    from pyvc import solve
+    pairs = cp.all_pairs()
+    out = []
+    for i in idxs:
+        obs, covers, info = cp.obligations([pairs[i]])
+        res = []
+        for o in obs:
+            solve.solve_one(o, 5000)
+            res.append((o.name, o.status, o.solver, o.time_s))
+        for c in covers:        # vacuity guard: the assumptions of this pair are satisfiable
+            solve.solve_one(c, 5000)
+            res.append((c.name, "cover-" + c.status, c.solver, c.time_s))
+        out.append((i, res, {k: info.get(k) for k in ("paths", "scenarios", "unsupported", "sha", "lines", "path")}))
+    return out
+
+
+def replay_prefix(con, ob):
+    """replay a failed comparison obligation on the real Prefixed class with decimal mantissas"""
+    from decimal import Decimal, localcontext
+    from fractions import Fraction
+    from contracts import c_prefix as cp
+    import hdl21 as h
+    got = cp.decimal_model(ob)
+    if got is None:
+        return None
+    p1, p2 = (h.prefix.Prefix[n] for n in ob.meta["prefixes"])
+
+    def dec(q):
+        with localcontext() as lc:
+            lc.prec = 200
+            return Decimal(q.numerator) / Decimal(q.denominator)
+    a, b = h.Prefixed(number=dec(got[0]), prefix=p1), h.Prefixed(number=dec(got[1]), prefix=p2)
+    inp = {"case": repr((str(a.number), p1.name, str(b.number), p2.name)), "witness_class": "comparison",
+           "native": "clauses"}
+    bad = native_clauses(a, b)
+    if bad:
+        return (True, f"{a!r} vs {b!r}: " + "; ".join(bad), inp)
+    return (False, "the decimal model does not fail natively", inp)
+
+
+replay_prefix.finds_own_model = True
+
+
+def native_clauses(a, b):
+    """the clauses of contracts/c_prefix.py evaluated on the real objects -> list of failing clause descriptions"""
+    from fractions import Fraction
+    import operator as op
+    L = Fraction(a.number) * Fraction(10) ** a.prefix.value
+    R = Fraction(b.number) * Fraction(10) ** b.prefix.value
+    T = Fraction(10) ** (max(a.prefix.value, b.prefix.value) - 20)
+    ops = {"lt": op.lt, "le": op.le, "eq": op.eq, "ne": op.ne, "gt": op.gt, "ge": op.ge}
+    mirror = {"lt": "gt", "le": "ge", "eq": "eq", "ne": "ne", "gt": "lt", "ge": "le"}
+    bad = []
+    try:
+        r = {k: f(a, b) for k, f in ops.items()}
+        q = {k: f(b, a) for k, f in ops.items()}
+    except Exception as e:
+        return [f"comparison raises {type(e).__name__}"]
+    for k, f in ops.items():
+        if abs(L - R) > T and r[k] != f(L, R):
+            bad.append(f"agreement: {k} is {r[k]}, exact values give {f(L, R)}")
+        if L == R and r[k] != (k in ("eq", "le", "ge")):
+            bad.append(f"same-value: {k} is {r[k]}")
+        if r[k] != q[mirror[k]]:
+            bad.append(f"swap: a {k} b is {r[k]} but b {mirror[k]} a is {q[mirror[k]]}")
+    if sum([r["lt"], r["eq"], r["gt"]]) != 1 or r["le"] != (r["lt"] or r["eq"]) or r["ge"] != (r["gt"] or r["eq"]) \
+            or r["ne"] != (not r["eq"]):
+        bad.append(f"relations: {r}")
+    try:
+        if L == R and hash(a) != hash(b):
+            bad.append("same value, different hashes")
+        if int(a) != int(L):
+            bad.append(f"int() is {int(a)}, integer part is {int(L)}")
+        if float(a) != float(L):
+            bad.append(f"float() is {float(a)!r}, nearest float is {float(L)!r}")
+    except Exception as e:
+        bad.append(f"hash/int/float raises {type(e).__name__}")
+    return bad
+
+
+def deductive(ctx):
+    from multiprocessing import Pool
+    from contracts import c_prefix as cp
+    n = len(cp.all_pairs())
+    chunks = [list(range(i, min(i + 3, n))) for i in range(0, n, 3)]
+    parts, failing = [], 0
+    with Pool(min(16, os.cpu_count() or 1)) as pool:
+        for part in pool.imap_unordered(_prove_pairs, chunks):
+            parts.append(part)
+            failing += sum(1 for i, res, info in part
+                           if any(st not in ("proved", "cover-failed") for _, st, _, _ in res))
+            if failing >= 6:
+                # enough evidence of a violation: the remaining pairs are not needed to report it (and sat / hard
+                # queries are slow); coverage of this run is partial and says so below
+                pool.terminate()
+                break
+    partial = len(parts) < len(chunks)
+    fr = {"function": cp.KEY + ".__lt__/__le__/__eq__/__ne__/__gt__/__ge__/__hash__/__int__/__float__ "
+                      "(+ _rounded_to_smaller, to_prefixed, exact inlined)", "scenarios": 0, "paths": 0,
+          "obligations": 0, "discharged": 0, "status": "proved", "kind": "relational"}
+    redo = []
+    for part in parts:
+        for i, res, info in part:
+            fr["scenarios"] += info["scenarios"] or 0
+            fr["paths"] += info["paths"] or 0
+            fr["sha"], fr["lines"], fr["file"] = info.get("sha"), info.get("lines"), info.get("path")
+            for u in info["unsupported"] or []:
+                ctx.unsupported.append((cp.KEY, u))
+            bad = False
+            for name, status, solver, ts in res:
+                if status.startswith("cover-"):
+                    if status != "cover-failed":      # `False` must be refutable, i.e. the assumptions satisfiable
+                        ctx.checker_errors.append(f"vacuous assumptions for {name}: {status}")
+                    continue
+                if status == "proved":
+                    ctx.obligations += 1
+                    ctx.solver_s += ts
+                    ctx.discharged += 1
+                    fr["obligations"] += 1
+                    fr["discharged"] += 1
+                    ctx.by_backend[solver] = ctx.by_backend.get(solver, 0) + 1
+                else:
+                    bad = True
+            if bad:
+                redo.append(i)
+    if fr["scenarios"] < n and not ctx.unsupported and not partial:
+        ctx.checker_errors.append(f"only {fr['scenarios']} of {n} prefix pairs produced obligations")
+    if fr["obligations"] < 20 * fr["scenarios"]:
+        ctx.checker_errors.append(f"too few obligations for {fr['scenarios']} prefix pairs: {fr['obligations']}")
+    ctx.functions.append(fr)
+    # pairs with an obligation that did not verify: redone in this process so that the failure is reported with its
+    # model and replayed natively (at most 6 pairs are reported in full)
+    pairs = cp.all_pairs()
+    for i in redo[:6]:
+        obs, covers, info = cp.obligations([pairs[i]])
+        ctx.discharge(obs, cp.KEY, info, replay=replay_prefix, timeout_ms=5000)
+    ctx.assumptions += ["Fraction(Decimal) is exact for finite Decimals; NaN/infinite mantissas are outside the property",
+                        "hash(Fraction) and float(Fraction) are functions of the rational value alone (CPython numeric "
+                        "tower); float(Fraction) is correctly rounded",
+                        "arithmetic (+ - * / scale) is NOT under contract: decimal's 28-digit context is outside the "
+                        "theories; it is decided on the bounded family only"]
 
 
 def replay(payload):
     inp = payload.get("input") or {}
     c = inp.get("case")
-    if c == "tables":
+    if c and inp.get("native") == "clauses":
+        from hdl21.prefix import Prefix, Prefixed
+        x, px, y, py = eval(c)
+        r = native_clauses(Prefixed(number=Decimal(x), prefix=Prefix[px]), Prefixed(number=Decimal(y), prefix=Prefix[py]))
+    elif c == "tables":
         r = check_tables(0)
     elif c:
         r = check_pair(eval(c))
